@@ -40,6 +40,23 @@ CLAIMED = {
         "technique": "Lean 4 proof (mutual structural induction over the parameter tree; refinement of a stack machine "
                      "to a recursive spec) + differential correspondence against parse_args",
     },
+    "C06": {
+        "text": "Lean theorems over the model of sxbuiltin/date: boolean tables round-trip and accept exactly the four "
+                "XSD lexicals (over the GENERATED tables); the type-name table maps every value-carrying built-in to "
+                "its translator (generated); XDecimal output is digits-only [-]I[.F] denoting exactly digits x 10^exp "
+                "for every digit list and exponent (no exponent notation, nothing rounded); fractional seconds of any "
+                "length are rounded half-up to the microsecond; the +1us carry keeps times valid; timezone rules "
+                "(00:00 -> UTC, hour >= 24 rejected, offset value); a decoded date/time/dateTime is never an "
+                "impossible one. Witness theorems for the known findings D13 (24:00:00 rejected) and D20 (date "
+                "timezone not validated). The model (scanner for the three regexes, match->value functions, "
+                "isoformat, decimal formatter) is tied to the code by a correspondence on ~60k cases per run; an "
+                "independent XSD oracle (Fraction/datetime arithmetic) judges every decoded value, and real "
+                "requests/replies are checked on the wire for every built-in type.",
+        "design_ref": "DESIGN.md section 6 C06",
+        "note": "int/float/Decimal parsing and printing, datetime construction and isoformat are CPython runtime "
+                "(trusted, correspondence only); the isoformat->parse round trip is not proved in Lean (partial).",
+        "technique": "Lean 4 proof (digit-list arithmetic, case analysis) + generated tables + differential correspondence",
+    },
 }
 
 NOT_YET = "check not built yet in this round (design in DESIGN.md section 6); not claimed"
